@@ -516,6 +516,11 @@ pub struct Spawn<'a> {
     /// preloaded shim (harness/shim/ttvseed.c) answers deterministically from this number, so every
     /// HashMap / HashSet iteration order of the run - hooked or not - is a function of it
     pub hash_seed: Option<u64>,
+    /// RLIMIT_FSIZE for the process, with SIGXFSZ ignored: a write that would grow a file beyond
+    /// this many bytes is cut short by the kernel and the next one fails with EFBIG - a real short
+    /// write (disk full / quota) rather than an injected error. Not combinable with `strace`
+    /// (the tracer's own log would be limited too).
+    pub fsize_limit: Option<u64>,
 }
 
 /// the getrandom shim built by ./check (None when it could not be built: seeds then run free)
@@ -558,6 +563,19 @@ pub fn spawn(sp: Spawn) -> ProcRun {
         cmd.env("TAURI_TYPEGEN_VERIF_TRACE", t);
     }
     cmd.stdin(std::process::Stdio::null());
+    if let Some(limit) = sp.fsize_limit {
+        use std::os::unix::process::CommandExt;
+        unsafe {
+            cmd.pre_exec(move || {
+                let lim = libc::rlimit { rlim_cur: limit as libc::rlim_t, rlim_max: limit as libc::rlim_t };
+                if libc::setrlimit(libc::RLIMIT_FSIZE, &lim) != 0 {
+                    return Err(std::io::Error::last_os_error());
+                }
+                libc::signal(libc::SIGXFSZ, libc::SIG_IGN);
+                Ok(())
+            });
+        }
+    }
     match cmd.output() {
         Ok(o) => ProcRun {
             code: o.status.code(),
@@ -590,7 +608,7 @@ pub fn run_cli(cwd: &Path, args: &[&str]) -> ProcRun {
         cwd,
         schedule_env: None,
         trace_file: None,
-        strace: None, hash_seed: None
+        strace: None, hash_seed: None, fsize_limit: None
     })
 }
 
